@@ -602,4 +602,381 @@ theorem run_lastPublish (s : State) (ops : List Op) :
         | none => simp at hl
         | some z => rfl
 
+/-! ### the effective OTI of a file -/
+
+theorem effectiveOti_spec (d : Oti) (a : ObjAttrs) (o : Oti) (h : effectiveOti d a = .ok (some o)) :
+    ((a.oti.getD d).enc ≠ 6 ∧ (a.oti.getD d).enc ≠ 1 ∧ o = a.oti.getD d) ∨
+    (((a.oti.getD d).enc = 6 ∨ (a.oti.getD d).enc = 1) ∧ ∃ nb, o = setZ (a.oti.getD d) nb ∧
+      ((a.oti.getD d).enc = 6 → nb ≤ 255) ∧ ((a.oti.getD d).enc = 1 → nb ≤ 65535)) := by
+  unfold effectiveOti at h
+  simp only at h
+  split at h
+  · cases h
+  · split at h
+    · cases h
+    · split at h
+      · cases h
+      · cases h
+      · split at h
+        · rename_i h61
+          split at h
+          · cases h
+          · split at h
+            · cases h
+            · split at h
+              · cases h
+              · rename_i q _ _ hnb
+                simp only [Except.ok.injEq, Option.some.injEq] at h
+                right
+                refine ⟨h61, max q.2.2.2 1, h.symm, ?_, ?_⟩
+                · intro h6
+                  have := Nat.le_of_not_gt (fun hgt => hnb (.inl ⟨h6, hgt⟩))
+                  omega
+                · intro h1
+                  have := Nat.le_of_not_gt (fun hgt => hnb (.inr ⟨h1, hgt⟩))
+                  omega
+        · rename_i h61
+          simp only [Except.ok.injEq, Option.some.injEq] at h
+          left
+          exact ⟨fun h6 => h61 (.inl h6), fun h1 => h61 (.inr h1), h.symm⟩
+
+theorem setZ_fields (o : Oti) (nb : Nat) :
+    (setZ o nb).enc = o.enc ∧ (setZ o nb).inst = o.inst ∧ (setZ o nb).maxSbl = o.maxSbl ∧
+    (setZ o nb).esl = o.esl ∧ (setZ o nb).parity = o.parity := by
+  unfold setZ
+  split
+  · split <;> exact ⟨rfl, rfl, rfl, rfl, rfl⟩
+  · split <;> exact ⟨rfl, rfl, rfl, rfl, rfl⟩
+  · exact ⟨rfl, rfl, rfl, rfl, rfl⟩
+
+theorem setZ_wf (o : Oti) (nb : Nat) (h : o.wf) (h6 : o.enc = 6 → nb ≤ 255) (h1 : o.enc = 1 → nb ≤ 65535) :
+    (setZ o nb).wf := by
+  obtain ⟨hv, hi, hb, he, hp, hs⟩ := h
+  unfold setZ
+  split
+  · rename_i z n al hsch
+    split
+    · rename_i henc
+      refine ⟨hv, hi, hb, he, hp, ?_⟩
+      intro s hs'
+      simp only [Option.some.injEq] at hs'
+      subst hs'
+      have := hs _ hsch
+      simp only [Scheme.wf] at this ⊢
+      have := h6 henc
+      omega
+    · exact ⟨hv, hi, hb, he, hp, hs⟩
+  · rename_i z n al hsch
+    split
+    · rename_i henc
+      refine ⟨hv, hi, hb, he, hp, ?_⟩
+      intro s hs'
+      simp only [Option.some.injEq] at hs'
+      subst hs'
+      have := hs _ hsch
+      simp only [Scheme.wf] at this ⊢
+      have := h1 henc
+      omega
+    · exact ⟨hv, hi, hb, he, hp, hs⟩
+  · exact ⟨hv, hi, hb, he, hp, hs⟩
+
+theorem setZ_coherent (o : Oti) (nb : Nat) (h : o.coherent) : (setZ o nb).coherent := by
+  unfold setZ
+  split
+  · split
+    · rename_i henc; simp only [Oti.coherent]; exact henc
+    · exact h
+  · split
+    · rename_i henc; simp only [Oti.coherent]; exact henc
+    · exact h
+  · exact h
+
+/-! ### receiver-side extraction inverts the sender's attribute encoding -/
+
+theorem decode_schemeInfo (o : Oti) (hco : o.coherent) : decodeScheme o.enc (schemeInfo o) = o.scheme := by
+  unfold Oti.coherent at hco
+  unfold schemeInfo decodeScheme
+  cases hs : o.scheme with
+  | none =>
+    simp
+  | some sch =>
+    cases sch with
+    | rs2m m g =>
+      simp only [hs] at hco
+      simp [hco]
+    | raptorq z n al =>
+      simp only [hs] at hco
+      simp only [hco]
+      simp
+      exact Nat.div_add_mod' n 256
+    | raptor z n al =>
+      simp only [hs] at hco
+      simp only [hco]
+      simp
+      exact Nat.div_add_mod' z 256
+
+theorem recvOti_noAttrs : recvOti noAttrs = .ok none := rfl
+
+theorem recvOti_getAttributes (o : Oti) (hwf : o.wf) (hco : o.coherent) : recvOti (getAttributes o) = .ok (some o) := by
+  obtain ⟨hv, hi, hb, he, hp, _⟩ := hwf
+  unfold recvOti getAttributes
+  simp only [hv, Bool.not_true, Bool.false_eq_true, if_false, Option.getD_some, Nat.add_sub_cancel_left,
+    Nat.mod_eq_of_lt hi, Nat.mod_eq_of_lt hb, Nat.mod_eq_of_lt he, Nat.mod_eq_of_lt hp, decode_schemeInfo o hco]
+
+theorem listed_mem (s : State) (fd : FileDesc) (h : fd ∈ listedFiles s) : fd ∈ s.files := by
+  unfold listedFiles at h
+  split at h
+  · exact h
+  · exact (List.mem_filter.mp h).1
+
+/-- every file entry of an instance stems from a live file of the sender, which stems from an `add` of the trace
+    and carries the effective OTI computed at that `add` -/
+theorem file_origin (cfg : Cfg) (ops : List Op) (now : Nat) (f : AFile)
+    (hf : f ∈ (instanceAt (run (init cfg) ops).1 now).files) :
+    ∃ fd ∈ (run (init cfg) ops).1.files, f = toFileXml fd now ∧
+      (Op.add fd.attrs, Res.added (.ok fd.toi)) ∈ trace (init cfg) ops ∧
+      effectiveOti cfg.oti fd.attrs = .ok (some fd.oti) := by
+  simp only [instanceAt, List.mem_map] at hf
+  rcases hf with ⟨fd, hfd, rfl⟩
+  have hmem := listed_mem _ _ hfd
+  refine ⟨fd, hmem, rfl, ?_, ?_⟩
+  · have hsim := run_sim (init cfg) [] ops rfl
+    have hv : viewF fd ∈ (run (init cfg) ops).1.files.map viewF := List.mem_map_of_mem hmem
+    rw [hsim] at hv
+    unfold absFiles at hv
+    simp only [List.mem_map, List.mem_filter] at hv
+    rcases hv with ⟨x, ⟨hx, _⟩, hxv⟩
+    simp only [viewG, viewF, Prod.mk.injEq] at hxv
+    rcases track_prov (trace (init cfg) ops) [] x hx with ⟨y, hy, _⟩ | h
+    · simp at hy
+    · rw [hxv.1, hxv.2.1] at h; exact h
+  · have := run_otiInv (init cfg) ops (by intro f hf; simp [init] at hf) fd hmem
+    rw [run_cfg] at this
+    exact this
+
+/-- a reader resolving File-level over FDT-level FEC-OTI attributes ends up with the attributes of the OTI the object
+    is sent with -/
+theorem resolve_fileOti (d : Oti) (fd : FileDesc) (h : effectiveOti d fd.attrs = .ok (some fd.oti)) :
+    resolveOti (fdtOtiAttrs d) (fileOtiAttrs fd) = getAttributes fd.oti := by
+  unfold resolveOti fileOtiAttrs
+  rcases effectiveOti_spec d fd.attrs fd.oti h with ⟨h6, h1, heq⟩ | ⟨h61, nb, heq, _⟩
+  · have h6' : fd.oti.enc ≠ 6 := by rw [heq]; exact h6
+    have h1' : fd.oti.enc ≠ 1 := by rw [heq]; exact h1
+    have hno : ¬ (fd.oti.enc = 6 ∨ fd.oti.enc = 1) := fun h => h.elim h6' h1'
+    simp only [hno, if_false]
+    cases ho : fd.attrs.oti with
+    | none =>
+      simp only [ho, Option.getD_none] at heq
+      have : ¬ (d.enc = 6 ∨ d.enc = 1) := by rw [← heq]; exact hno
+      simp [noAttrs, fdtOtiAttrs, this, heq]
+    | some ov =>
+      simp only [ho, Option.getD_some] at heq
+      simp [getAttributes, heq]
+  · have henc : fd.oti.enc = (fd.attrs.oti.getD d).enc := by rw [heq]; exact (setZ_fields _ nb).1
+    have hyes : fd.oti.enc = 6 ∨ fd.oti.enc = 1 := by rw [henc]; exact h61
+    simp [hyes, getAttributes]
+
+/-- the TOI counter never decreases, and an `add` returns the counter value -/
+theorem step_nextToi (s : State) (op : Op) : s.nextToi ≤ (step s op).1.nextToi := by
+  cases op with
+  | add a => simp only [step, add]; split; exact Nat.le_refl _; split <;> simp
+  | remove t => simp only [step, remove]; split <;> exact Nat.le_refl _
+  | publish now => exact Nat.le_refl _
+  | setComplete => exact Nat.le_refl _
+  | tstart t now => simp only [step, tstart]; split; (cases s.cfg.mode <;> exact Nat.le_refl _); exact Nat.le_refl _
+  | tdone t now => exact Nat.le_refl _
+  | poll now =>
+    simp only [step, poll]
+    split
+    · rw [popQueue_nextToi]; exact Nat.le_refl _
+    · rw [popQueue_nextToi]; exact Nat.le_refl _
+
+theorem add_ok_lt (s : State) (a : ObjAttrs) (t : Nat) (h : (add s a).2 = .ok t) : t < (add s a).1.nextToi := by
+  unfold add at h ⊢
+  split
+  · simp_all
+  · split <;> simp_all
+
+theorem trace_toi_ge (s : State) (ops : List Op) (b : ObjAttrs) (t : Nat)
+    (h : (Op.add b, Res.added (.ok t)) ∈ trace s ops) : s.nextToi ≤ t := by
+  induction ops generalizing s with
+  | nil => simp [trace] at h
+  | cons op ops ih =>
+    simp only [trace, List.mem_cons] at h
+    rcases h with h | h
+    · simp only [Prod.mk.injEq] at h
+      obtain ⟨hop, hres⟩ := h
+      subst hop
+      simp only [step, add] at hres
+      split at hres
+      · cases hres
+      · split at hres
+        · cases hres
+        · cases hres
+        · simp only [Res.added.injEq, AddRes.ok.injEq] at hres
+          omega
+    · exact Nat.le_trans (step_nextToi s op) (ih _ h)
+
+/-! ### receiver side: expiry, cache directive, content encoding, OTI -/
+
+theorem era_aux (a b K M : Nat) (h : a + K + b < M) (hM : M ≤ 18446744073709551616) :
+    (if a + K + b ≥ 18446744073709551616 then (none : Option Nat)
+     else if (a + K + b) % M < K then none else some (((a + K + b) % M - K) * 1000000)) = some ((a + b) * 1000000) := by
+  have h1 : (a + K + b) % M = a + K + b := Nat.mod_eq_of_lt h
+  rw [h1]
+  have h2 : ¬ (a + K + b ≥ 18446744073709551616) := by omega
+  have h3 : ¬ (a + K + b < K) := by omega
+  have h4 : a + K + b - K = a + b := by omega
+  simp only [h2, h3, if_false, h4]
+
+theorem recvExpiration_eq (s : State) (now : Nat)
+    (hera : now / 1000000 + 2208988800 + s.cfg.durationUs / 1000000 < 2^32) :
+    recvExpiration (instanceAt s now) = some (expiryUs s.cfg.durationUs now) := by
+  unfold recvExpiration instanceAt ntpSecs expiryUs
+  simp only
+  have h0 : (now / 1000000 + 2208988800) % 2^32 = now / 1000000 + 2208988800 :=
+    Nat.mod_eq_of_lt (Nat.lt_of_le_of_lt (Nat.le_add_right _ _) hera)
+  rw [h0]
+  have := era_aux (now / 1000000) (s.cfg.durationUs / 1000000) 2208988800 (2^32) hera (by decide)
+  simpa using this
+
+theorem secs_aux (x K M : Nat) (h : x + K < M) :
+    (if ((x + K) % M) % M < K then (none : Option Nat) else some ((((x + K) % M) % M - K) * 1000000)) = some (x * 1000000) := by
+  have h1 : (x + K) % M = x + K := Nat.mod_eq_of_lt h
+  rw [h1, h1]
+  have h3 : ¬ (x + K < K) := by omega
+  have h4 : x + K - K = x := by omega
+  simp only [h3, if_false, h4]
+
+theorem recvCache_eq (s : State) (now : Nat) (fd : FileDesc)
+    (hera : now / 1000000 + 2208988800 + s.cfg.durationUs / 1000000 < 2^32)
+    (hc : cacheInEra now fd.attrs.cache) :
+    recvCache (instanceAt s now) (toFileXml fd now) = cacheRead s.cfg.durationUs now fd.attrs.cache := by
+  unfold recvCache
+  rw [recvExpiration_eq s now hera]
+  simp only [toFileXml]
+  cases hcc : fd.attrs.cache with
+  | none => simp [cacheRead]
+  | some cc =>
+    rw [hcc] at hc
+    cases cc with
+    | noCache => simp [cacheRead, fdtCache]
+    | maxStale => simp [cacheRead, fdtCache]
+    | expiresIn d =>
+      simp only [cacheInEra] at hc
+      have := secs_aux ((now + d) / 1000000) 2208988800 (2^32) hc
+      simp only [Option.map_some, fdtCache, ntpSecs, cacheRead]
+      split at this
+      · cases this
+      · rename_i hlt
+        simp only [Option.some.injEq] at this
+        simp only [hlt, if_false, this]
+    | expiresAt t =>
+      simp only [cacheInEra] at hc
+      have := secs_aux (t / 1000000) 2208988800 (2^32) hc
+      simp only [Option.map_some, fdtCache, ntpSecs, cacheRead]
+      split at this
+      · cases this
+      · rename_i hlt
+        simp only [Option.some.injEq] at this
+        simp only [hlt, if_false, this]
+
+theorem cenc_roundtrip (c : Nat) (h : c ≤ 3) :
+    (match (if c = 0 then (none : Option String) else some (cencStr c)) with
+     | none => 0
+     | some s => if s = "zlib" then 1 else if s = "deflate" then 2 else if s = "gzip" then 3 else 0) = c := by
+  have : c = 0 ∨ c = 1 ∨ c = 2 ∨ c = 3 := by omega
+  rcases this with rfl | rfl | rfl | rfl <;> decide
+
+theorem recvCenc_eq (fd : FileDesc) (now : Nat) (h : fd.attrs.cenc ≤ 3) : recvCenc (toFileXml fd now) = fd.attrs.cenc := by
+  unfold recvCenc toFileXml
+  exact cenc_roundtrip fd.attrs.cenc h
+
+theorem recvOtiForFile_eq (s : State) (now : Nat) (fd : FileDesc)
+    (h : effectiveOti s.cfg.oti fd.attrs = .ok (some fd.oti))
+    (hwf : (fd.attrs.oti.getD s.cfg.oti).wf) (hco : (fd.attrs.oti.getD s.cfg.oti).coherent) :
+    recvOtiForFile (instanceAt s now) (toFileXml fd now) = .ok (some fd.oti) := by
+  unfold recvOtiForFile
+  have hI : (instanceAt s now).oti = fdtOtiAttrs s.cfg.oti := rfl
+  have hF : (toFileXml fd now).oti = fileOtiAttrs fd := rfl
+  rw [hI, hF]
+  unfold fileOtiAttrs
+  rcases effectiveOti_spec s.cfg.oti fd.attrs fd.oti h with ⟨h6, h1, heq⟩ | ⟨h61, nb, heq, hb6, hb1⟩
+  · have hno : ¬ (fd.oti.enc = 6 ∨ fd.oti.enc = 1) := by
+      rw [heq]; exact fun h => h.elim h6 h1
+    simp only [hno, if_false]
+    cases ho : fd.attrs.oti with
+    | none =>
+      simp only [ho, Option.getD_none] at heq hwf hco
+      have hno' : ¬ (s.cfg.oti.enc = 6 ∨ s.cfg.oti.enc = 1) := by rw [← heq]; exact hno
+      simp only [recvOti_noAttrs, fdtOtiAttrs, hno', if_false]
+      rw [recvOti_getAttributes _ hwf hco, heq]
+    | some ov =>
+      simp only [ho, Option.getD_some] at heq hwf hco
+      simp only
+      rw [recvOti_getAttributes _ hwf hco, heq]
+  · have henc : fd.oti.enc = (fd.attrs.oti.getD s.cfg.oti).enc := by rw [heq]; exact (setZ_fields _ nb).1
+    have hyes : fd.oti.enc = 6 ∨ fd.oti.enc = 1 := by rw [henc]; exact h61
+    simp only [hyes, if_true]
+    have hwf' : fd.oti.wf := by rw [heq]; exact setZ_wf _ nb hwf hb6 hb1
+    have hco' : fd.oti.coherent := by rw [heq]; exact setZ_coherent _ nb hco
+    rw [recvOti_getAttributes _ hwf' hco']
+
+
+/-! ### listing helpers -/
+
+theorem filter_tr_F (l : List FileDesc) :
+    (l.filter (fun f => f.transferring)).map (fun f => f.toi) =
+      ((l.map viewF).filter (fun v => v.2.2.1)).map (fun v => v.1) := by
+  induction l with
+  | nil => rfl
+  | cons f l ih =>
+    simp only [List.filter_cons, List.map_cons, viewF]
+    by_cases h : f.transferring = true
+    · simp only [h, if_true, List.map_cons]; rw [ih]
+    · simp only [h, Bool.false_eq_true, if_false]; exact ih
+
+theorem filter_tr_G (g : List G) :
+    ((g.filter (fun x => x.live)).filter (fun x => x.transferring)).map (fun x => x.toi) =
+      ((absFiles g).filter (fun v => v.2.2.1)).map (fun v => v.1) := by
+  unfold absFiles
+  induction (g.filter (fun x => x.live)) with
+  | nil => rfl
+  | cons x l ih =>
+    simp only [List.filter_cons, List.map_cons, viewG]
+    by_cases h : x.transferring = true
+    · simp only [h, if_true, List.map_cons]; rw [ih]
+    · simp only [h, Bool.false_eq_true, if_false]; exact ih
+
+theorem popQueue_inst_files (s : State) (t : Nat) : (instanceAt (popQueue s) t).files = (instanceAt s t).files := by
+  unfold instanceAt listedFiles
+  simp only [popQueue_cfg, popQueue_files]
+
+theorem step_pub_inst (s : State) (op : Op) (p : Pub) (hp : p ∈ (step s op).2.1) :
+    p.inst.files = (instanceAt (step s op).1 p.time).files := by
+  cases op with
+  | add a => simp [step] at hp
+  | remove t => simp [step] at hp
+  | publish now => simp [step, publish] at hp; subst hp; rfl
+  | setComplete => simp [step] at hp
+  | tstart t now =>
+    simp only [step, tstart] at hp ⊢
+    split at hp
+    · rename_i hany
+      simp only [hany, if_true]
+      cases hm : s.cfg.mode with
+      | beingTransferred => simp [hm, publish] at hp ⊢; subst hp; rfl
+      | fullFdt => simp [hm] at hp
+    · simp at hp
+  | tdone t now => simp [step] at hp
+  | poll now =>
+    simp only [step, poll] at hp ⊢
+    by_cases h : needRepublish s now = true
+    · simp only [h, if_true, List.mem_singleton] at hp ⊢
+      subst hp
+      rw [popQueue_inst_files]
+      rfl
+    · simp [h] at hp
+
+
 end Flute.Lemmas.FdtAbs
